@@ -55,6 +55,9 @@ pub fn install_panic_hook() {
                 .location()
                 .map(|l| format!("{}:{}", l.file(), l.line()))
                 .unwrap_or_default();
+            if std::env::var("SIM_DEBUG").is_ok() {
+                eprintln!("[panic] {loc}: {msg}");
+            }
             LAST_PANIC.with(|p| {
                 // Keep the first panic of a cascade: that is the cause.
                 let mut p = p.borrow_mut();
@@ -90,6 +93,7 @@ pub struct RunStats {
     pub model_states: BTreeSet<u64>,
     pub nontrivial: bool,
     pub log_digest: u64,
+    pub crash_points_first_boot: u64,
 }
 
 pub struct RunResult {
@@ -121,6 +125,11 @@ pub struct Run<'a> {
     pub in_flight: Option<Op>,
     pub last_db: Option<DbDump>,
     pub digest_acc: u64,
+    pub op_ev0: usize,
+    pub after_crash: bool,
+    /// A crash interrupted the handling of this block: its effects are partly on disk. Durable-state comparisons are
+    /// suspended until the tower has handled it again; RPCs issued before the crash count for it.
+    pub partial_block: Option<(bitcoin::BlockHash, Vec<(&'static str, Option<bitcoin::Txid>, Verdict)>)>,
 }
 
 pub enum Stop {
@@ -207,11 +216,20 @@ impl<'a> Run<'a> {
             in_flight: None,
             last_db: None,
             digest_acc: 0,
+            op_ev0: 0,
+            after_crash: false,
+            partial_block: None,
         }
     }
 
     fn report(&mut self, vs: Vec<Violation>) {
-        for v in vs {
+        for mut v in vs {
+            // Whatever goes wrong after an injected crash is a failure to recover from it.
+            if self.after_crash && v.property != "C03" && v.property != "C11" {
+                v.detail = format!("[{} {}] after crash+restart: {}", v.property, v.clause, v.detail);
+                v.clause = after_crash_clause(v.property, v.clause);
+                v.property = "C03";
+            }
             let kind = self
                 .hist
                 .ops
@@ -331,15 +349,23 @@ impl<'a> Run<'a> {
                     let mut db = None;
                     let mut idx = None;
                     let mut j = i + 1;
+                    let mut ended = false;
                     while j < events.len() {
                         if let Event::DisconnectEnd { hash: h2, db: d, idx: x, .. } = &events[j] {
                             if h2 == hash {
                                 db = d.clone();
                                 idx = x.clone();
+                                ended = true;
                                 break;
                             }
                         }
                         j += 1;
+                    }
+                    if !ended {
+                        return;
+                    }
+                    if self.partial_block.is_some() {
+                        db = None;
                     }
                     let node = self.node.lock();
                     let mut vs = self.model.on_disconnect(&node, *hash, *height, db.as_deref());
@@ -367,8 +393,27 @@ impl<'a> Run<'a> {
                         }
                         j += 1;
                     }
+                    if !ended {
+                        // The block's handling did not finish (crash): its effects are partial; it is processed again after
+                        // the restart.
+                        self.model.probe("crash_mid_block");
+                        self.partial_block = Some((*hash, rpcs_of(&events[i..])));
+                        return;
+                    }
                     let upto = j.min(events.len());
-                    let rpcs = rpcs_of(&events[i..upto]);
+                    let mut rpcs = rpcs_of(&events[i..upto]);
+                    if let Some((pb, carried)) = self.partial_block.clone() {
+                        if pb == *hash {
+                            // what the node was asked before the crash still counts for this block
+                            let mut all = carried;
+                            all.extend(rpcs);
+                            rpcs = all;
+                            self.partial_block = None;
+                            self.model.probe("partial_block_reprocessed");
+                        } else {
+                            db = None;
+                        }
+                    }
                     let node = self.node.lock();
                     let mut vs = self.model.on_connect(&node, *hash, *height, &rpcs, db.as_deref());
                     if let Some(x) = idx.as_deref() {
@@ -377,9 +422,6 @@ impl<'a> Run<'a> {
                     drop(node);
                     self.stats.blocks_connected += 1;
                     self.report(vs);
-                    if !ended {
-                        // The block's handling did not finish (crash / abort): the caller deals with it.
-                    }
                     i = upto + 1;
                 }
                 _ => i += 1,
@@ -1255,6 +1297,22 @@ impl<'a> Run<'a> {
     }
 }
 
+/// Static clause names for violations of other properties observed after a crash (signatures need 'static strs).
+pub fn after_crash_clause(property: &str, clause: &str) -> &'static str {
+    use std::collections::HashMap;
+    use std::sync::Mutex;
+    static INTERN: Mutex<Option<HashMap<String, &'static str>>> = Mutex::new(None);
+    let key = format!("after_crash:{property}:{clause}");
+    let mut g = INTERN.lock().unwrap_or_else(|e| e.into_inner());
+    let m = g.get_or_insert_with(HashMap::new);
+    if let Some(s) = m.get(&key) {
+        return s;
+    }
+    let leaked: &'static str = Box::leak(key.clone().into_boxed_str());
+    m.insert(key, leaked);
+    leaked
+}
+
 pub fn short<T: std::fmt::Debug>(r: &Result<T, ApiErr>) -> String {
     match r {
         Ok(_) => "Ok(..)".to_string(),
@@ -1300,6 +1358,18 @@ pub fn run_history(hist: &History) -> RunResult {
         let cfg = hist.cfg.clone();
         let logc = run.log.clone();
         LAST_PANIC.with(|p| *p.borrow_mut() = None);
+        let persisted: Option<bitcoin::BlockHash> = {
+            let p = dir.join("teos_db.sql3");
+            if p.exists() && DbReader::open(&p).has_schema() {
+                DbReader::open(&p)
+                    .dump()
+                    .last_known_block
+                    .and_then(|b| bitcoin::BlockHash::from_slice(&b).ok())
+            } else {
+                None
+            }
+        };
+        let mut booted = false;
         let res = catch_unwind(AssertUnwindSafe(|| {
             let ev0 = logc.len();
             tower::run_tower(&dir, &node, &cfg, &logc, true, |ctx| {
@@ -1312,10 +1382,15 @@ pub fn run_history(hist: &History) -> RunResult {
                     None::<bitcoin::BlockHash>
                 };
                 let _ = boot_tip;
-                run.on_boot(ctx, ev0);
+                run.on_boot(ctx, ev0, persisted);
+                booted = true;
+                if boots == 1 {
+                    run.stats.crash_points_first_boot = run.crash_counter.load(Ordering::SeqCst);
+                }
                 while next_op < hist.ops.len() {
                     run.cur_op = next_op;
                     let op = hist.ops[next_op].clone();
+                    run.op_ev0 = run.log.len();
                     run.in_flight = Some(op.clone());
                     let stop = run.exec_op(ctx, &op);
                     run.in_flight = None;
@@ -1338,8 +1413,11 @@ pub fn run_history(hist: &History) -> RunResult {
             Err(payload) => {
                 if is_crash(&payload) {
                     run.stats.crashes += 1;
-                    run.on_crash();
-                    next_op += 1;
+                    if booted {
+                        run.on_crash();
+                        next_op += 1;
+                    }
+                    run.after_crash = true;
                     if boots > 50 {
                         break;
                     }
@@ -1356,6 +1434,13 @@ pub fn run_history(hist: &History) -> RunResult {
                 }
                 run.cur_op = next_op.min(hist.ops.len().saturating_sub(1));
                 let loc = normalise_location(&info.location);
+                if !booted && run.after_crash {
+                    run.report(vec![Violation {
+                        property: "C03",
+                        clause: "restart_fails",
+                        detail: format!("tower does not start after the crash: panic at {}: {}", loc, first_line(&info.message)),
+                    }]);
+                }
                 run.report(vec![Violation {
                     property: "C11",
                     clause: "abort",
@@ -1366,6 +1451,15 @@ pub fn run_history(hist: &History) -> RunResult {
         }
     }
     teos_common::verif::set_crash_callback(None);
+    if std::env::var("SIM_TRACE").is_ok() {
+        for e in run.log.since(0) {
+            match e {
+                Event::BlockEnd { hash, height, .. } => eprintln!("[ev] BlockEnd {hash} {height}"),
+                Event::DisconnectEnd { hash, height, .. } => eprintln!("[ev] DisconnectEnd {hash} {height}"),
+                other => eprintln!("[ev] {other:?}"),
+            }
+        }
+    }
     run.finish(&dir)
 }
 
@@ -1395,57 +1489,207 @@ pub fn first_line(s: &str) -> String {
 }
 
 impl<'a> Run<'a> {
-    fn on_boot(&mut self, ctx: &mut TowerCtx, ev0: usize) {
+    fn on_boot(&mut self, ctx: &mut TowerCtx, ev0: usize, persisted: Option<bitcoin::BlockHash>) {
         let events = self.log.since(ev0);
-        // Where did the tower start? If it processed blocks during the backlog poll, the first event tells; otherwise
-        // it is at the node's view of its last known block = its persisted block or the node tip at first boot.
         let first = self.model.first_boot;
         self.model.tower_id.get_or_insert(ctx.tower_id);
         if self.model.tower_id != Some(ctx.tower_id) {
             self.report(vec![viol("C03", "tower_id_changed", "tower id changed across restart".into())]);
         }
-        let start_tip = {
-            let mut start = None;
-            for e in events.iter() {
-                match e {
-                    Event::DisconnectStart { hash, .. } => {
-                        start = Some(*hash);
+        // main(): start from the persisted last known block if there is one, else from the node's best block.
+        let node = self.node.lock();
+        let start_tip = match persisted {
+            Some(b) if node.blocks.contains_key(&b) => b,
+            _ => {
+                // first boot: the best block at boot time = parent of the first connected block, or the node tip
+                let mut start = None;
+                for e in events.iter() {
+                    match e {
+                        Event::DisconnectStart { hash, .. } => {
+                            start = Some(*hash);
+                            break;
+                        }
+                        Event::BlockStart { hash, .. } => {
+                            start = Some(node.blocks[hash].0.header.prev_blockhash);
+                            break;
+                        }
+                        _ => {}
+                    }
+                }
+                start.unwrap_or(node.tip())
+            }
+        };
+        let mut vs = vec![];
+        if !first {
+            // C03: the tower must resume from a block it had finished processing. Resuming *behind* is fine (blocks are
+            // processed again); resuming *ahead* skips blocks whose breaches / confirmations nobody will ever handle.
+            let done = self.model.tip();
+            if start_tip != done {
+                // Walk back from where the tower resumes until a block of the chain it had processed: every block on the way
+                // that it was never shown is skipped for good.
+                let mut skipped = vec![];
+                let mut cur = start_tip;
+                for _ in 0..300 {
+                    if self.model.shown.contains(&cur) {
                         break;
                     }
-                    Event::BlockStart { hash, .. } => {
-                        let node = self.node.lock();
-                        start = Some(node.blocks[hash].0.header.prev_blockhash);
-                        break;
+                    if !self.model.ever_shown.contains(&cur) {
+                        skipped.push(cur);
                     }
-                    _ => {}
+                    match node.blocks.get(&cur) {
+                        Some((b, _)) => cur = b.header.prev_blockhash,
+                        None => break,
+                    }
+                }
+                if !skipped.is_empty() {
+                    self.model.probe("restart_ahead_of_processed_tip");
+                    let mut relevant = None;
+                    for bh in skipped.iter() {
+                        for tx in node.blocks[bh].0.txdata.iter().skip(1) {
+                            let txid = tx.compute_txid();
+                            for (k, r) in self.model.recs.iter() {
+                                let is_dispute = self.uni.dispute(k.1).compute_txid() == txid;
+                                let is_penalty = r.penalty.as_ref().map(|p| p.compute_txid()) == Some(txid);
+                                if (is_dispute && r.state == RecState::Watched) || (is_penalty && r.state == RecState::Responded) {
+                                    relevant = Some((*k, node.blocks[bh].1));
+                                }
+                            }
+                        }
+                    }
+                    if let Some((k, h)) = relevant {
+                        vs.push(viol(
+                            "C03",
+                            if persisted.is_some() {
+                                "restart_skips_blocks_persisted_tip_ahead_of_processed"
+                            } else {
+                                "restart_skips_blocks_no_persisted_tip"
+                            },
+                            format!(
+                                "tower restarted at {start_tip} but had only finished processing up to height {}; skipped block {h} (never delivered to the tower) holds the dispute/penalty of (user {}, dispute {})",
+                                self.model.h, k.0, k.1
+                            ),
+                        ));
+                    }
+                } else {
+                    self.model.probe("restart_behind_processed_tip");
                 }
             }
-            start
-        };
-        let node = self.node.lock();
-        let start_tip = start_tip.unwrap_or_else(|| {
-            // no chain event during boot: the tower sits at its persisted block if that is the node tip or an
-            // equal/longer-work block, else at node tip
-            if first {
-                node.tip()
-            } else {
-                self.last_db
-                    .as_ref()
-                    .and_then(|d| d.last_known_block.clone())
-                    .and_then(|b| bitcoin::BlockHash::from_slice(&b).ok())
-                    .filter(|b| node.blocks.contains_key(b))
-                    .unwrap_or(node.tip())
-            }
-        });
+        }
         self.model.on_boot(&node, start_tip);
         drop(node);
         self.model.first_boot = false;
+        self.report(vs);
         self.process_chain_events(&events);
+        if let Some((pb, _)) = self.partial_block.take() {
+            // The interrupted block was not handled again (the chain moved on or its download failed): whatever it had
+            // already changed stays; adopt it for the records and users it could touch.
+            self.model.probe("partial_block_not_reprocessed");
+            let node = self.node.lock();
+            let txids: BTreeSet<bitcoin::Txid> =
+                node.blocks.get(&pb).map(|b| b.0.txdata.iter().map(|t| t.compute_txid()).collect()).unwrap_or_default();
+            drop(node);
+            let keys: Vec<(u32, u32)> = self.model.recs.keys().cloned().collect();
+            for k in keys {
+                let touched = {
+                    let r = &self.model.recs[&k];
+                    txids.contains(&self.uni.dispute(k.1).compute_txid()) || r.state == RecState::Responded
+                };
+                if touched {
+                    self.model.recs.get_mut(&k).unwrap().unspecified = true;
+                    if let Some(m) = self.model.users.get_mut(&k.0) {
+                        m.tainted = true;
+                    }
+                }
+            }
+        }
         self.observe(ctx, &BTreeSet::new(), &BTreeSet::new(), false);
     }
 
+    /// The process died at a crash point while `in_flight` was being executed: blocks that were completely handled are
+    /// accounted for; for an interrupted request the statement allows "not applied", "applied", or "slots charged but
+    /// nothing stored" -- never a gift of slots, never more than the request's own slots lost.
     fn on_crash(&mut self) {
-        // Filled in by the crash engine (C03); for the plain engine a crash script is empty.
+        let events = self.log.since(self.op_ev0);
+        let op = self.in_flight.take();
+        self.model.probe("crash_injected");
+        match op {
+            Some(Op::Poll) => {
+                self.process_chain_events(&events);
+                self.model.probe("crash_in_poll");
+                if self.partial_block.is_none() {
+                    // Blocks of the interrupted poll were handled completely but the poll itself did not finish: they are
+                    // delivered again after the restart. Until the tower is back at the last of them, the durable state is
+                    // ahead of the chain position it is re-processing.
+                    let last_done = events.iter().rev().find_map(|e| match e {
+                        Event::BlockEnd { hash, .. } => Some(*hash),
+                        _ => None,
+                    });
+                    if let Some(h) = last_done {
+                        self.partial_block = Some((h, vec![]));
+                    }
+                }
+            }
+            Some(Op::Register { u }) => {
+                self.model.probe("crash_in_register");
+                let cfg = self.model.cfg.clone();
+                let h = self.model.h;
+                let before = self.model.users.get(&u).cloned();
+                let after = match &before {
+                    Some(m) => m.available.checked_add(cfg.slots).map(|a| {
+                        let mut x = m.clone();
+                        x.available = a;
+                        x.expiry = m.expiry.checked_add(cfg.duration).unwrap_or(u32::MAX);
+                        x.granted += cfg.slots as u64;
+                        x
+                    }),
+                    None => Some(crate::model::MUser {
+                        pk: self.model.user_pk(u),
+                        available: cfg.slots,
+                        start: h,
+                        expiry: h.wrapping_add(cfg.duration),
+                        granted: cfg.slots as u64,
+                        forfeited: 0,
+                        tainted: false,
+                    }),
+                };
+                self.model.crash_allow = Some(crate::model::CrashAllow::Register { u, before, after });
+            }
+            Some(Op::Add { u, d, blob, tsd, sig }) => {
+                self.model.probe("crash_in_add");
+                let eu = match sig {
+                    Sig::Good => Some(u),
+                    Sig::OtherUser(u2) => Some(u2),
+                    _ => None,
+                };
+                if let Some(eu) = eu.filter(|e| self.model.users.contains_key(e)) {
+                    let (blob_bytes, penalty) = self.blob_of(d, &blob);
+                    let existing = self.model.recs.get(&(eu, d)).cloned();
+                    let required = slots_for(blob_bytes.len()) as i64;
+                    let used = existing
+                        .as_ref()
+                        .filter(|x| x.state == RecState::Watched)
+                        .map(|x| slots_for(x.blob.len()) as i64)
+                        .unwrap_or(0);
+                    let diff = required - used;
+                    let avail = self.model.users[&eu].available as i64;
+                    let loc = self.model.locator(d);
+                    let app = Appointment::new(loc, blob_bytes.clone(), tsd);
+                    let sig_str = self.sign_cached(eu, &app.to_vec());
+                    self.model.remember_verdicts(&rpcs_of(&events));
+                    self.model.crash_allow = Some(crate::model::CrashAllow::Add {
+                        u: eu,
+                        d,
+                        lo: (avail - diff.max(0)).max(0) as u32,
+                        hi: (avail + (-diff).max(0)) as u32,
+                        new_blob: blob_bytes,
+                        new_tsd: tsd,
+                        new_sig: sig_str,
+                        new_penalty: penalty,
+                    });
+                }
+            }
+            _ => {}
+        }
     }
 
     fn finish(mut self, dir: &std::path::Path) -> RunResult {
@@ -1476,6 +1720,9 @@ impl<'a> Run<'a> {
         self.stats.nontrivial = self.stats.probes.keys().any(|k| {
             k.starts_with("breach") || k.starts_with("trigger") || k.starts_with("tracker") || k.contains("purged") || k.contains("reannounce")
         }) || !self.stats.faults_fired.is_empty();
+        if !self.hist.faults.crash_at.is_empty() && self.stats.crashes == 0 {
+            self.stats.nontrivial = false;
+        }
         RunResult {
             found: self.found,
             stats: self.stats,
